@@ -721,7 +721,7 @@ class RecipeTable(JMCFunction):
         # self.raw_args["recipe"].token, self.tokenizer,
         # display_col_length=True, suggestion="recipe json maybe invalid")
         if "result" in json:
-            if "item" not in json["result"]:
+            if not isinstance(json["result"], dict) or "item" not in json["result"]:
                 raise JMCSyntaxException(
                     "'item' key not found in 'result' in recipe",
                     self.raw_args["recipe"].token,
